@@ -60,9 +60,13 @@ class TableCacheWorld:
             shutil.rmtree(tmp_tree, ignore_errors=True)
             info = json.loads(r.stdout.strip().splitlines()[-1]) if r.stdout.strip() else {"error": "no output"}
             if r.returncode != 0 or info.get("error"):
-                raise RuntimeError("foreign table generation failed: %s" % info)
-            self.foreign_info = info
-            self._foreign = os.path.join(out, "parsetab.py")
+                # the declared grammar cannot be turned into tables at all (the library's own regeneration will fail
+                # the same way and be reported through the 'missing' state): this fault kind is unavailable
+                self.foreign_info = {"unavailable": "table generation failed: %s" % info}
+                self._foreign = False
+            else:
+                self.foreign_info = info
+                self._foreign = os.path.join(out, "parsetab.py")
         return self._foreign
 
     def set_state(self, state):
@@ -82,7 +86,11 @@ class TableCacheWorld:
                 os.remove(self.pt)
             return
         if state == "stale_foreign":
-            shutil.copyfile(self._foreign_file(), self.pt)
+            ff = self._foreign_file()
+            if ff:
+                shutil.copyfile(ff, self.pt)
+            else:
+                self.set_state("stale_benign")
             return
         text = open(self.valid_file).read()
         if state == "stale_benign":
@@ -95,10 +103,10 @@ class TableCacheWorld:
         with open(self.pt, "w") as f:
             f.write(new)
 
-    def _incarnate(self, idxs, write_fault, hashseed, want=None, pyflags=(), force_optimize=False):
+    def _incarnate(self, idxs, write_fault, hashseed, want=None, pyflags=(), force_optimize=False, crash_at=None):
         shutil.rmtree(os.path.join(self.pkg, "__pycache__"), ignore_errors=True)
         job = {"items": [self.W[i] for i in idxs], "write_fault": write_fault, "want_outcomes": want or [],
-               "force_optimize": force_optimize}
+               "force_optimize": force_optimize, "crash_at": crash_at}
         r = subprocess.run([core.PY] + list(pyflags) + [os.path.join(core.HERE, "incarnation.py"), self.tree], input=json.dumps(job),
                            stdout=subprocess.PIPE, stderr=subprocess.DEVNULL, text=True, timeout=900,
                            env=core.worker_env(hashseed), cwd=self.workroot)
@@ -130,10 +138,15 @@ class TableCacheWorld:
                 st = "stale_foreign"
             wf = rf.random() < swarm["p_write_fault"]
             k = 4 if wf else swarm["sample"]
-            inc.append({"state": st, "write_fault": wf,
-                        "hashseed": rf.choice([0, 1, 2, 4242, 31337]) if swarm["vary_hashseed"] else 0,
-                        "pyflags": ["-O"] if rf.random() < 0.2 else [],
-                        "items": sorted(rw.sample(self.small, k))})
+            if inc and inc[-1].get("crash_at") and rf.random() < 0.75:
+                st = "keep"       # restart on exactly what the killed process left behind
+            one = {"state": st, "write_fault": wf,
+                   "hashseed": rf.choice([0, 1, 2, 4242, 31337]) if swarm["vary_hashseed"] else 0,
+                   "pyflags": ["-O"] if rf.random() < 0.2 else [],
+                   "items": sorted(rw.sample(self.small, k))}
+            if not wf and rf.random() < 0.15:
+                one["crash_at"] = rf.choice(["regen_start", "table_write"])
+            inc.append(one)
         return {"world": "tablecache", "prop": "C20", "seed": seed, "swarm": swarm, "incarnations": inc}
 
     def execute(self, trace, keep_events=False):
@@ -149,8 +162,23 @@ class TableCacheWorld:
             self.set_state(inc["state"])
             eff = inc["state"] if inc["state"] != "keep" else "keep(" + prev + ")"
             valid_before = self._cache_valid_now()
-            r = self._incarnate(inc["items"], inc["write_fault"], inc.get("hashseed", 0), pyflags=inc.get("pyflags") or ())
+            before_files = set(os.listdir(self.pkg))
+            r = self._incarnate(inc["items"], inc["write_fault"], inc.get("hashseed", 0), pyflags=inc.get("pyflags") or (),
+                                crash_at=inc.get("crash_at"))
             stats["incarnations"] += 1
+            if inc.get("crash_at"):
+                stats["crash_armed"] += 1
+            if r.get("crashed"):
+                # the process was killed before it touched the cache file: nothing to compare; the next incarnation
+                # starts on whatever it left behind
+                stats["crash_fired_" + r["crashed"]] += 1
+                left = sorted(set(os.listdir(self.pkg)) - before_files - {"__pycache__"})
+                if left:
+                    stats["crash_left_files"] += 1
+                kinds.append("%s:crash@%s" % (eff, r["crashed"]))
+                log.add("incarnation", i=i, state=inc["state"], crashed=r["crashed"], left=left)
+                prev = "valid" if self._cache_valid_now() else eff
+                continue
             if inc.get("pyflags"):
                 stats["interp_" + "".join(inc["pyflags"])] += 1
             stats["state_" + inc["state"]] += 1
@@ -196,6 +224,8 @@ class TableCacheWorld:
     def foreign_strength(self):
         """Harness probe: how many workload items come out differently when the foreign table is bound without
         PLY's signature check (i.e. how visible the 'stale signature, foreign tables' fault is if wrongly accepted)."""
+        if not self._foreign_file():
+            return {"status": "ok", "unavailable": True, "foreign": self.foreign_info}
         self.set_state("stale_foreign")
         try:
             r = self._incarnate(list(range(len(self.W))), False, 0, force_optimize=True)
@@ -217,6 +247,10 @@ class TableCacheWorld:
                     cells.append((st, wf, c, ()))
             # the same state met by an optimising interpreter (python -O: __debug__ is False, asserts stripped)
             cells.append((st, False, 0, ("-O",)))
+        for st in ["missing", "stale_benign", "stale_foreign", "old_version"]:
+            for where in ("regen_start", "table_write"):
+                # killed while regenerating, then restarted on what was left behind
+                cells.append((st, False, 1, ("crash", where)))
         out = {"status": "ok", "cells": 0, "total_cells": len(cells), "keys": [], "violating": [], "stats": collections.Counter()}
         for n, (st, wf, c, pyflags) in enumerate(cells):
             if n % nparts != part:
@@ -224,8 +258,13 @@ class TableCacheWorld:
             idxs = [i for i in range(len(self.W)) if i % nchunks == c]
             if wf:
                 idxs = [i for i in idxs if i in set(self.small)][::6]     # every constructor regenerates (0.5 s each)
-            trace = {"world": "tablecache", "prop": "C20", "seed": 0, "swarm": {"sweep": [st, wf, c, list(pyflags)]},
-                     "incarnations": [{"state": st, "write_fault": wf, "hashseed": 0, "items": idxs, "pyflags": list(pyflags)}]}
+            if pyflags and pyflags[0] == "crash":
+                trace = {"world": "tablecache", "prop": "C20", "seed": 0, "swarm": {"sweep": [st, wf, c, list(pyflags)]},
+                         "incarnations": [{"state": st, "write_fault": False, "hashseed": 0, "items": idxs[:2], "crash_at": pyflags[1]},
+                                          {"state": "keep", "write_fault": False, "hashseed": 0, "items": idxs}]}
+            else:
+                trace = {"world": "tablecache", "prop": "C20", "seed": 0, "swarm": {"sweep": [st, wf, c, list(pyflags)]},
+                         "incarnations": [{"state": st, "write_fault": wf, "hashseed": 0, "items": idxs, "pyflags": list(pyflags)}]}
             r = self.execute(trace)
             out["cells"] += 1
             out["keys"].append("%s:%s:%d%s" % (st, "ro" if wf else "rw", c, ":" + "".join(pyflags) if pyflags else ""))
